@@ -66,6 +66,32 @@ func families() []family {
 			}
 			return sb.String()
 		}})
+	// 9. nested brackets with two closers: S -> ( S ) | ( S ] | a   (not left-recursive: its memoized results are UN-curtailed;
+	//    the second alternative asks S again at the position where the first one asked — a cache hit, or the work doubles per level)
+	fs = append(fs, family{"brackets2", []*Sexp{LA("memo", N(0), LA("any", seqOf(runeT('('), refN(0), runeT(')')), seqOf(runeT('('), refN(0), runeT(']')), runeT('a')))}, LA("sentence", refN(0)),
+		func(n int) string {
+			k := (n - 1) / 2
+			var sb strings.Builder
+			sb.WriteString(strings.Repeat("(", k) + "a")
+			for i := 0; i < k; i++ {
+				sb.WriteByte(")]"[i%2])
+			}
+			return sb.String()
+		}})
+	// 10. a memoized right-recursive list behind a shared prefix: L -> I ; L | I , L | I    I -> a   (L and I memoized; every alternative of L
+	//     asks I, and the first two ask L, at the same positions)
+	fs = append(fs, family{"rlist2", []*Sexp{
+		LA("memo", N(0), LA("any", seqOf(refN(1), runeT(';'), refN(0)), seqOf(refN(1), runeT(','), refN(0)), refN(1))),
+		LA("memo", N(1), runeT('a'))}, LA("sentence", refN(0)),
+		func(n int) string {
+			var sb strings.Builder
+			sb.WriteByte('a')
+			for i := 0; i < (n-1)/2; i++ {
+				sb.WriteByte(";,"[i%2])
+				sb.WriteByte('a')
+			}
+			return sb.String()
+		}})
 	// 8. arithmetic with two operators per level: E -> E + T | E - T | T ; T -> T * F | T / F | F ; F -> 1 | ( E )
 	fs = append(fs, family{"arith2", []*Sexp{
 		LA("memo", N(0), LA("any", seqOf(refN(0), runeT('+'), refN(1)), seqOf(refN(0), runeT('-'), refN(1)), refN(1))),
@@ -132,7 +158,7 @@ func c17Exec(c *Sexp) Outcome {
 func init() {
 	register(&Prop{
 		ID: "C17", Cmd: "parse",
-		Rule: "the six named families (P -> P b | a; expr/term/factor arithmetic; mutually left-recursive pair; hidden left recursion P -> x? P b | a; nested brackets; separated list) and two more with several left-recursive alternatives per rule (P -> P b | P c | a; arithmetic with + - * /) at lengths 5..128 (thorough: ..384): exact call counts of the implementation vs the Lean model, equal on a second run with a re-built grammar, and calls(2n)/calls(n) <= 16 for n >= 8 (each case also runs length 2n on the implementation). Non-trivial = n >= 16; distinct = (family, n).",
+		Rule: "the six named families (P -> P b | a; expr/term/factor arithmetic; mutually left-recursive pair; hidden left recursion P -> x? P b | a; nested brackets; separated list), two more with several left-recursive alternatives per rule (P -> P b | P c | a; arithmetic with + - * /) and two whose memoized results are un-curtailed and asked for again at the same position (nested brackets with two closers S -> ( S ) | ( S ] | a; right-recursive list L -> I ; L | I , L | I) at lengths 5..128 (thorough: ..384): exact call counts of the implementation vs the Lean model, equal on a second run with a re-built grammar, and calls(2n)/calls(n) <= 16 for n >= 8 (each case also runs length 2n on the implementation). Non-trivial = n >= 16; distinct = (family, n).",
 		Count: func(tier string) int {
 			if tier == "thorough" {
 				return len(families()) * (len(c17Lengths) + 3)
